@@ -18,6 +18,7 @@ pub mod tests;
 /// harnesses can drive them directly. Compiled only with `--cfg wwcore_verif`.
 #[cfg(wwcore_verif)]
 pub mod verif_hooks {
+    pub use crate::commands::VERIF_MINIMUM_COLLECTABLE_BALANCE as MINIMUM_COLLECTABLE_BALANCE;
     pub use crate::error::ContractError;
     pub use crate::helpers::{
         assert_slippage_tolerance, calculate_stableswap_y, compute_d,
